@@ -5,7 +5,8 @@
 (*                                                                             *)
 (* Same trace as DpqTrace.  "begin" is the invocation (step e1 follows, internal), *)
 (* "adv" a tick of the clock process, "pop" (hook dpq.pop{id, delivered}) the     *)
-(* step r2 of the roll-over process that pops exactly that request with exactly   *)
+(* step r2 of the roll-over process (or e1p of an arriving request) that pops     *)
+(* exactly that request with exactly                                              *)
 (* that outcome, "end" requires the process to have finished with the logged      *)
 (* result, "quiet" that every process is blocked.  All other steps (e2 park, e3   *)
 (* wake, e4 leave, r0/r1/r3) are internal and interleaved by TLC.  Request ids    *)
@@ -41,7 +42,7 @@ TReset ==
     /\ sig' = [i \in Req |-> FALSE] /\ woke' = [i \in Req |-> "no"] /\ gone' = [i \in Req |-> FALSE]
     /\ deadline' = [i \in Req |-> -1] /\ res' = [i \in Req |-> "none"]
     /\ peek' = [i \in Req |-> FALSE] /\ stamp' = [i \in Req |-> -1] /\ relWin' = [i \in Req |-> -1]
-    /\ rollStamp' = 0 /\ seq' = 1 /\ rev' = FALSE /\ held' = FALSE
+    /\ rollStamp' = 0 /\ seq' = 1 /\ rev' = FALSE /\ held' = FALSE /\ fired' = FALSE /\ turn' = {}
     /\ rq' = <<>> /\ rel' = <<>> /\ last' = [ev |-> "reset"] /\ ok' = TRUE /\ strand' = {} /\ hist' = <<>>
     /\ pc' = [self \in Req \cup {"roll", "clock"} |-> IF self = "roll" THEN "r0" ELSE IF self = "clock" THEN "c0" ELSE "e1"]
 
@@ -58,7 +59,7 @@ TAdv == Consume("adv") /\ inv = {} /\ c0 /\ UNCHANGED inv
 
 TPop ==
     /\ Consume("pop")
-    /\ r2 /\ heap' = heap \ {Ev.id} /\ Ev.id \in heap
+    /\ (r2 \/ \E i \in Req : e1p(i)) /\ heap' = heap \ {Ev.id} /\ Ev.id \in heap
     /\ (sig'[Ev.id] # sig[Ev.id]) = Ev.delivered
     /\ UNCHANGED inv
 
@@ -74,7 +75,7 @@ QuietHeld == /\ inv = {}
                                \/ pc[i] = "e3" /\ woke[i] = "no" /\ ~TimerDue(i)
 TQuiet == Consume("quiet") /\ (IF Ev.held = 1 THEN QuietHeld ELSE QuietT) /\ UNCHANGED <<vars, inv>>
 
-IEnq == \E i \in Req : (e2(i) \/ e3(i) \/ e4(i)) /\ UNCHANGED <<l, inv>>
+IEnq == \E i \in Req : ((e1p(i) /\ heap' = heap) \/ e1d(i) \/ e2(i) \/ e3(i) \/ e4(i)) /\ UNCHANGED <<l, inv>>
 IRoll == (r0 \/ r1 \/ rh \/ (r2 /\ heap' = heap) \/ r3) /\ UNCHANGED <<l, inv>>
 
 TNext == TReset \/ TBegin \/ IArrive \/ TEnd \/ TAdv \/ TPop \/ TQuiet \/ IEnq \/ IRoll
